@@ -222,11 +222,20 @@ theorem IsPartition.perm {d N : Nat} {cs cs' : List Cell} (hp : IsPartition d N 
   rw [measure_perm h]
   exact hp.2 L (fun c hc => hL c (h.symm.subset hc))
 
-theorem IsPartition.step {d N : Nat} {cs : List Cell} (hp : IsPartition d N cs) (op : Op) :
-    IsPartition d N (step d cs op) := by
+theorem IsPartition.after_step {d N : Nat} {cs cs' : List Cell} (hp : IsPartition d N cs) (op : Op)
+    (h : step d cs op = .ok cs') : IsPartition d N cs' := by
   cases op with
-  | refined => exact (hp.refines (refines_flatMap_children d cs)).perm (isort_perm _ _)
-  | refinedBy sel => exact (hp.refines (refines_refineSel d cs sel)).perm (isort_perm _ _)
+  | refined =>
+    simp only [step, Except.ok.injEq] at h
+    subst h
+    exact (hp.refines (refines_flatMap_children d cs)).perm (isort_perm _ _)
+  | refinedBy sel =>
+    simp only [step] at h
+    split at h
+    · simp only [Except.ok.injEq] at h
+      subst h
+      exact (hp.refines (refines_refineSel d cs _)).perm (isort_perm _ _)
+    · cases h
 
 theorem isPartition_bases (d : Nat) (bases : List (List Nat)) (h : bases.Nodup) :
     IsPartition d bases.length (cellsOfBases bases) := by
@@ -241,15 +250,25 @@ theorem isPartition_bases (d : Nat) (bases : List (List Nat)) (h : bases.Nodup) 
       funext i; simp [weight, Cell.level]
     rw [this, List.map_const', sum_replicate_nat]
 
-theorem isPartition_runFrom (d : Nat) (bases : List (List Nat)) (h : bases.Nodup) (ops : List Op) :
-    IsPartition d bases.length (runFrom d bases ops) := by
-  unfold runFrom
-  generalize hcs : cellsOfBases bases = cs
-  have hp : IsPartition d bases.length cs := hcs ▸ isPartition_bases d bases h
-  clear hcs
-  induction ops generalizing cs with
-  | nil => exact hp
-  | cons op ops ih => exact ih _ (hp.step op)
+theorem isPartition_foldlM {d N : Nat} (ops : List Op) : ∀ (cs cs' : List Cell), IsPartition d N cs →
+    ops.foldlM (step d) cs = .ok cs' → IsPartition d N cs' := by
+  induction ops with
+  | nil =>
+    intro cs cs' hp h
+    simp only [List.foldlM_nil, pure, Except.pure, Except.ok.injEq] at h
+    subst h; exact hp
+  | cons op ops ih =>
+    intro cs cs' hp h
+    rw [List.foldlM_cons] at h
+    cases hs : step d cs op with
+    | error e => rw [hs] at h; cases h
+    | ok s =>
+      rw [hs] at h
+      exact ih s cs' (hp.after_step op hs) h
+
+theorem isPartition_runFrom (d : Nat) (bases : List (List Nat)) (h : bases.Nodup) (ops : List Op) (cells : List Cell)
+    (hr : runFrom d bases ops = .ok cells) : IsPartition d bases.length cells :=
+  isPartition_foldlM ops _ _ (isPartition_bases d bases h) hr
 
 /-! ### the multi-indices of a box -/
 
